@@ -1,4 +1,5 @@
 import NxModel.Nex.RmcServer
+import NxModel.Nex.RmcResult
 import NxModel.DriverUtil
 /-! line-protocol driver for the RMC server model (stateful: the table of registered servers)
   clear                                         -> ok
@@ -8,10 +9,103 @@ import NxModel.DriverUtil
   full <hex datagram> <extract> <user>          -> <hres> => <reaction>
   sbegin                                        -> ok     a new connection (request sequence) starts
   sreq <hex datagram> <extract> <user>          -> <hres> => <reaction> | dead    its next request, through `serveStep` (= `serve`)
+  rchk <where> <slot> <val>                     -> ok | <type(e).__name__>   what writing <val> at a position declared <slot> raises
+  rinc <slot> <val>                             -> - | type | other           the property's "wrongly typed" relation (`incompat`)
   hres    = ret:<hex> | <exc>          exc = rmc:<int> | type | index | memory | key | other | base
   extract = ok | <exc>                 user = stub | raise:<exc> | ret:<good|wrong|missing>:<hres>
+                                            | retv:<where>:<slot>:<val>:<hex>   a result that is well typed except for <val> at a
+                                              position declared <slot>; <hex> = the bytes the encoder writes if nothing fails
+  where   = top.<list|bool|int|str|bytes|dict|result|datetime|data|cls> | in0 | in1 (attribute tested by check_required)
+  slot    = u8|u16|u32|u64|s8|s16|s32|s64|pid4|pid8|float|double|bool|string|buffer|qbuffer|result|datetime|stationurl|
+            variant|anydata|struct | list.<slot> | map.<slot>.<slot>
+  val     = <atom> | L<atom>,… (list; `L` = []) | U<atom>,… (tuple) | M<atom>=<atom>,… (dict)
+  atom    = N | T | F | I<int> | Df | Db | Ds | S<cp>_<cp>… (str; `S` = "") | R<cp>x<n> (str of n equal chars) | B<byte>_… | Y… (bytearray)
+            | Xd | Xr | Xu (DateTime/Result/StationURL) | Xn (a Data subclass) | Xs (another Structure) | O (opaque object)
 -/
-open Nx Nx.Rmc Nx.RmcServer
+open Nx Nx.Rmc Nx.RmcServer Nx.RmcResult
+
+def parseNatsSep (sep : String) (r : List Char) : Option (List Nat) :=
+  if r.isEmpty then some [] else ((String.ofList r).splitOn sep).mapM String.toNat?
+
+def parseAtom (s : String) : Option Atom :=
+  match s.toList with
+  | ['N'] => some .none
+  | ['T'] => some (.bool true)
+  | ['F'] => some (.bool false)
+  | ['D', 'f'] => some (.float .f32)
+  | ['D', 'b'] => some (.float .big)
+  | ['D', 's'] => some (.float .special)
+  | ['X', 'd'] => some .datetime
+  | ['X', 'r'] => some .result
+  | ['X', 'u'] => some .stationurl
+  | ['X', 'n'] => some .data
+  | ['X', 's'] => some .structure
+  | ['O'] => some .opaque
+  | 'I' :: r => (String.ofList r).toInt?.map .int
+  | 'S' :: r => (parseNatsSep "_" r).map .str
+  | 'B' :: r => (parseNatsSep "_" r).map (.bytes · false)
+  | 'Y' :: r => (parseNatsSep "_" r).map (.bytes · true)
+  | 'R' :: r =>
+    match (String.ofList r).splitOn "x" with
+    | [c, n] => match c.toNat?, n.toNat? with
+      | some c, some n => some (.str (List.replicate n c))
+      | _, _ => none
+    | _ => none
+  | _ => none
+
+def parseAtoms (r : List Char) : Option (List Atom) :=
+  if r.isEmpty then some [] else ((String.ofList r).splitOn ",").mapM parseAtom
+
+def parseItem (s : String) : Option (Atom × Atom) :=
+  match s.splitOn "=" with
+  | [k, v] => match parseAtom k, parseAtom v with
+    | some k, some v => some (k, v)
+    | _, _ => none
+  | _ => none
+
+def parseVal (s : String) : Option Val :=
+  match s.toList with
+  | 'L' :: r => (parseAtoms r).map (.seq .list)
+  | 'U' :: r => (parseAtoms r).map (.seq .tuple)
+  | 'M' :: r => if r.isEmpty then some (.dict []) else (((String.ofList r).splitOn ",").mapM parseItem).map .dict
+  | _ => (parseAtom s).map .atom
+
+def parseSlotAux : Nat → List String → Option (Slot × List String)
+  | 0, _ => none
+  | _, [] => none
+  | fuel + 1, t :: r =>
+    if t = "list" then (parseSlotAux fuel r).map fun (e, r) => (.list e, r)
+    else if t = "map" then
+      match parseSlotAux fuel r with
+      | some (k, r) => (parseSlotAux fuel r).map fun (v, r) => (.map k v, r)
+      | none => none
+    else
+      let p : Option Slot :=
+        if t = "u8" then some .u8 else if t = "u16" then some .u16 else if t = "u32" then some .u32
+        else if t = "u64" then some .u64 else if t = "s8" then some .s8 else if t = "s16" then some .s16
+        else if t = "s32" then some .s32 else if t = "s64" then some .s64
+        else if t = "pid4" then some (.pid false) else if t = "pid8" then some (.pid true)
+        else if t = "float" then some .float else if t = "double" then some .double else if t = "bool" then some .bool
+        else if t = "string" then some .string else if t = "buffer" then some .buffer else if t = "qbuffer" then some .qbuffer
+        else if t = "result" then some .result else if t = "datetime" then some .datetime
+        else if t = "stationurl" then some .stationurl else if t = "variant" then some .variant
+        else if t = "anydata" then some .anydata else if t = "struct" then some .struct else none
+      p.map fun s => (s, r)
+
+def parseSlot (s : String) : Option Slot :=
+  match parseSlotAux 16 (s.splitOn ".") with
+  | some (sl, []) => some sl
+  | _ => none
+
+def parseWhere (s : String) : Option Where :=
+  if s = "in0" then some (.inner false) else if s = "in1" then some (.inner true)
+  else match s.splitOn "." with
+    | ["top", t] =>
+      (if t = "list" then some TopType.list else if t = "bool" then some .bool else if t = "int" then some .int
+       else if t = "str" then some .str else if t = "bytes" then some .bytes else if t = "dict" then some .dict
+       else if t = "result" then some .result else if t = "datetime" then some .datetime
+       else if t = "data" then some .data else if t = "cls" then some .cls else none).map .top
+    | _ => none
 
 def parseExc (s : String) : Option Exc :=
   match s.splitOn ":" with
@@ -61,7 +155,12 @@ def parseUser (s : String) : Option User :=
   else if s.startsWith "ret:good:" then (parseHres (s.drop 9).toString).map (.returns .good)
   else if s.startsWith "ret:wrong:" then (parseHres (s.drop 10).toString).map (.returns .wrongType)
   else if s.startsWith "ret:missing:" then (parseHres (s.drop 12).toString).map (.returns .missingField)
-  else none
+  else match s.splitOn ":" with
+    | ["retv", w, sl, v, h] =>
+      match parseWhere w, parseSlot sl, parseVal v, fromHex h with
+      | some w, some sl, some v, some obs => some (.returns .good (encOf (resultCheck w sl v) obs))
+      | _, _, _, _ => none
+    | _ => none
 
 def parseExtract (s : String) : Option (Option Exc) :=
   if s = "ok" then some none else (parseExc s).map some
@@ -83,6 +182,14 @@ def stepTbl (tbl : List Server) (line : String) : List Server × String :=
       if nr = "0" ∨ nr = "1" then
         ({ protocol := p, noresponse := nr = "1", methods := ms } :: tbl.filter (·.protocol ≠ p), "ok")
       else (tbl, "bad-op")
+    | _, _ => (tbl, "bad-op")
+  | ["rchk", w, sl, v] =>
+    match parseWhere w, parseSlot sl, parseVal v with
+    | some w, some sl, some v => (tbl, match resultCheck w sl v with | none => "ok" | some e => e.name)
+    | _, _, _ => (tbl, "bad-op")
+  | ["rinc", sl, v] =>
+    match parseSlot sl, parseVal v with
+    | some sl, some v => (tbl, match incompat sl v with | none => "-" | some e => showExc e)
     | _, _ => (tbl, "bad-op")
   | ["react", h, r] =>
     match fromHex h, parseHres r with
